@@ -470,3 +470,485 @@ pub fn first_outside(sl: &[Sl], base: usize, len: usize) -> Option<&Sl> {
     sl.iter()
         .find(|s| s.len > 0 && !(s.addr >= base && s.addr + s.len <= base + len))
 }
+
+// ---------------------------------------------------------------------------------------------
+// `Canon`: an INDEPENDENT field-by-field fingerprint of every public result type. The oracles
+// compare values with `veq` (fingerprints equal) instead of trusting the crate's own PartialEq,
+// so a weakened `PartialEq` impl cannot blind them; disagreements between the two are counted.
+
+use std::sync::atomic::{AtomicU64, Ordering};
+
+pub static PEQ_DISAGREE: AtomicU64 = AtomicU64::new(0);
+
+pub trait Canon {
+    fn canon(&self, o: &mut Vec<u8>);
+}
+fn cb(o: &mut Vec<u8>, tag: u8, b: &[u8]) {
+    o.push(tag);
+    o.extend_from_slice(&(b.len() as u64).to_le_bytes());
+    o.extend_from_slice(b);
+}
+fn cu(o: &mut Vec<u8>, tag: u8, v: u64) {
+    o.push(tag);
+    o.extend_from_slice(&v.to_le_bytes());
+}
+fn cob(o: &mut Vec<u8>, tag: u8, b: &Option<&[u8]>) {
+    match b {
+        None => cu(o, tag, 0xffff_ffff_ffff_ffff),
+        Some(b) => cb(o, tag, b),
+    }
+}
+pub fn canon_of<T: Canon + ?Sized>(t: &T) -> Vec<u8> {
+    let mut o = Vec::new();
+    t.canon(&mut o);
+    o
+}
+/// value equality used by the oracles
+pub fn veq<T: Canon + PartialEq>(a: &T, b: &T) -> bool {
+    let c = canon_of(a) == canon_of(b);
+    if c != (a == b) {
+        PEQ_DISAGREE.fetch_add(1, Ordering::Relaxed);
+    }
+    c
+}
+
+impl<T: Canon> Canon for Vec<T> {
+    fn canon(&self, o: &mut Vec<u8>) {
+        cu(o, 0xE0, self.len() as u64);
+        for x in self {
+            x.canon(o)
+        }
+    }
+}
+impl<A: Canon, B: Canon> Canon for (A, B) {
+    fn canon(&self, o: &mut Vec<u8>) {
+        self.0.canon(o);
+        self.1.canon(o);
+    }
+}
+impl Canon for TlsRecordHeader {
+    fn canon(&self, o: &mut Vec<u8>) {
+        cu(o, 1, self.record_type.0 as u64);
+        cu(o, 2, self.version.0 as u64);
+        cu(o, 3, self.len as u64);
+    }
+}
+impl<'a> Canon for TlsPlaintext<'a> {
+    fn canon(&self, o: &mut Vec<u8>) {
+        self.hdr.canon(o);
+        self.msg.canon(o);
+    }
+}
+impl<'a> Canon for TlsRawRecord<'a> {
+    fn canon(&self, o: &mut Vec<u8>) {
+        self.hdr.canon(o);
+        cb(o, 4, self.data);
+    }
+}
+impl<'a> Canon for TlsEncrypted<'a> {
+    fn canon(&self, o: &mut Vec<u8>) {
+        self.hdr.canon(o);
+        cb(o, 5, self.msg.blob);
+    }
+}
+impl<'a> Canon for TlsMessage<'a> {
+    fn canon(&self, o: &mut Vec<u8>) {
+        match self {
+            TlsMessage::Handshake(h) => {
+                o.push(0x10);
+                h.canon(o)
+            }
+            TlsMessage::ChangeCipherSpec => o.push(0x11),
+            TlsMessage::Alert(a) => {
+                cu(o, 0x12, a.severity.0 as u64);
+                cu(o, 0x13, a.code.0 as u64);
+            }
+            TlsMessage::ApplicationData(a) => cb(o, 0x14, a.blob),
+            TlsMessage::Heartbeat(h) => {
+                cu(o, 0x15, h.heartbeat_type.0 as u64);
+                cu(o, 0x16, h.payload_len as u64);
+                cb(o, 0x17, h.payload);
+            }
+        }
+    }
+}
+impl<'a> Canon for TlsClientHelloContents<'a> {
+    fn canon(&self, o: &mut Vec<u8>) {
+        cu(o, 0x20, self.version.0 as u64);
+        cb(o, 0x21, self.random);
+        cob(o, 0x22, &self.session_id);
+        cu(o, 0x23, self.ciphers.len() as u64);
+        for c in &self.ciphers {
+            cu(o, 0x24, c.0 as u64)
+        }
+        cu(o, 0x25, self.comp.len() as u64);
+        for c in &self.comp {
+            cu(o, 0x26, c.0 as u64)
+        }
+        cob(o, 0x27, &self.ext);
+    }
+}
+impl<'a> Canon for TlsServerHelloContents<'a> {
+    fn canon(&self, o: &mut Vec<u8>) {
+        cu(o, 0x28, self.version.0 as u64);
+        cb(o, 0x29, self.random);
+        cob(o, 0x2a, &self.session_id);
+        cu(o, 0x2b, self.cipher.0 as u64);
+        cu(o, 0x2c, self.compression.0 as u64);
+        cob(o, 0x2d, &self.ext);
+    }
+}
+impl<'a> Canon for TlsCertificateContents<'a> {
+    fn canon(&self, o: &mut Vec<u8>) {
+        cu(o, 0x30, self.cert_chain.len() as u64);
+        for c in &self.cert_chain {
+            cb(o, 0x31, c.data)
+        }
+    }
+}
+impl<'a> Canon for TlsCertificateRequestContents<'a> {
+    fn canon(&self, o: &mut Vec<u8>) {
+        cb(o, 0x32, &self.cert_types);
+        match &self.sig_hash_algs {
+            None => cu(o, 0x33, u64::MAX),
+            Some(v) => {
+                cu(o, 0x33, v.len() as u64);
+                for x in v {
+                    cu(o, 0x34, *x as u64)
+                }
+            }
+        }
+        cu(o, 0x35, self.unparsed_ca.len() as u64);
+        for c in &self.unparsed_ca {
+            cb(o, 0x36, c)
+        }
+    }
+}
+impl<'a> Canon for TlsCertificateStatusContents<'a> {
+    fn canon(&self, o: &mut Vec<u8>) {
+        cu(o, 0x37, self.status_type as u64);
+        cb(o, 0x38, self.blob);
+    }
+}
+impl<'a> Canon for TlsNextProtocolContent<'a> {
+    fn canon(&self, o: &mut Vec<u8>) {
+        cb(o, 0x39, self.selected_protocol);
+        cb(o, 0x3a, self.padding);
+    }
+}
+impl<'a> Canon for TlsClientKeyExchangeContents<'a> {
+    fn canon(&self, o: &mut Vec<u8>) {
+        match self {
+            TlsClientKeyExchangeContents::Dh(b) => cb(o, 0x3b, b),
+            TlsClientKeyExchangeContents::Ecdh(p) => cb(o, 0x3c, p.point),
+            TlsClientKeyExchangeContents::Unknown(b) => cb(o, 0x3d, b),
+        }
+    }
+}
+impl<'a> Canon for TlsMessageHandshake<'a> {
+    fn canon(&self, o: &mut Vec<u8>) {
+        use TlsMessageHandshake as H;
+        match self {
+            H::HelloRequest => o.push(0x40),
+            H::ClientHello(c) => {
+                o.push(0x41);
+                c.canon(o)
+            }
+            H::ServerHello(c) => {
+                o.push(0x42);
+                c.canon(o)
+            }
+            H::ServerHelloV13Draft18(c) => {
+                cu(o, 0x43, c.version.0 as u64);
+                cb(o, 0x44, c.random);
+                cu(o, 0x45, c.cipher.0 as u64);
+                cob(o, 0x46, &c.ext);
+            }
+            H::NewSessionTicket(t) => {
+                cu(o, 0x47, t.ticket_lifetime_hint as u64);
+                cb(o, 0x48, t.ticket);
+            }
+            H::EndOfEarlyData => o.push(0x49),
+            H::HelloRetryRequest(c) => {
+                cu(o, 0x4a, c.version.0 as u64);
+                cu(o, 0x4b, c.cipher.0 as u64);
+                cob(o, 0x4c, &c.ext);
+            }
+            H::Certificate(c) => {
+                o.push(0x4d);
+                c.canon(o)
+            }
+            H::ServerKeyExchange(c) => cb(o, 0x4e, c.parameters),
+            H::CertificateRequest(c) => {
+                o.push(0x4f);
+                c.canon(o)
+            }
+            H::ServerDone(b) => cb(o, 0x50, b),
+            H::CertificateVerify(b) => cb(o, 0x51, b),
+            H::ClientKeyExchange(c) => {
+                o.push(0x52);
+                c.canon(o)
+            }
+            H::Finished(b) => cb(o, 0x53, b),
+            H::CertificateStatus(c) => {
+                o.push(0x54);
+                c.canon(o)
+            }
+            H::NextProtocol(c) => {
+                o.push(0x55);
+                c.canon(o)
+            }
+            H::KeyUpdate(v) => cu(o, 0x56, *v as u64),
+        }
+    }
+}
+impl<'a> Canon for TlsExtension<'a> {
+    fn canon(&self, o: &mut Vec<u8>) {
+        use TlsExtension as E;
+        match self {
+            E::SNI(v) => {
+                cu(o, 0x60, v.len() as u64);
+                for (t, n) in v {
+                    cu(o, 0x61, t.0 as u64);
+                    cb(o, 0x62, n);
+                }
+            }
+            E::MaxFragmentLength(x) => cu(o, 0x63, *x as u64),
+            E::StatusRequest(None) => o.push(0x64),
+            E::StatusRequest(Some((t, b))) => {
+                cu(o, 0x65, t.0 as u64);
+                cb(o, 0x66, b);
+            }
+            E::EllipticCurves(v) => {
+                cu(o, 0x67, v.len() as u64);
+                for g in v {
+                    cu(o, 0x68, g.0 as u64)
+                }
+            }
+            E::EcPointFormats(b) => cb(o, 0x69, b),
+            E::SignatureAlgorithms(v) => {
+                cu(o, 0x6a, v.len() as u64);
+                for g in v {
+                    cu(o, 0x6b, *g as u64)
+                }
+            }
+            E::RecordSizeLimit(x) => cu(o, 0x6c, *x as u64),
+            E::SessionTicket(b) => cb(o, 0x6d, b),
+            E::KeyShareOld(b) => cb(o, 0x6e, b),
+            E::KeyShare(b) => cb(o, 0x6f, b),
+            E::PreSharedKey(b) => cb(o, 0x70, b),
+            E::EarlyData(None) => o.push(0x71),
+            E::EarlyData(Some(x)) => cu(o, 0x72, *x as u64),
+            E::SupportedVersions(v) => {
+                cu(o, 0x73, v.len() as u64);
+                for g in v {
+                    cu(o, 0x74, g.0 as u64)
+                }
+            }
+            E::Cookie(b) => cb(o, 0x75, b),
+            E::PskExchangeModes(b) => cb(o, 0x76, b),
+            E::Heartbeat(x) => cu(o, 0x77, *x as u64),
+            E::ALPN(v) => {
+                cu(o, 0x78, v.len() as u64);
+                for n in v {
+                    cb(o, 0x79, n)
+                }
+            }
+            E::SignedCertificateTimestamp(None) => o.push(0x7a),
+            E::SignedCertificateTimestamp(Some(b)) => cb(o, 0x7b, b),
+            E::Padding(b) => cb(o, 0x7c, b),
+            E::EncryptThenMac => o.push(0x7d),
+            E::ExtendedMasterSecret => o.push(0x7e),
+            E::OidFilters(v) => {
+                cu(o, 0x7f, v.len() as u64);
+                for f in v {
+                    cb(o, 0x80, f.cert_ext_oid);
+                    cb(o, 0x81, f.cert_ext_val);
+                }
+            }
+            E::PostHandshakeAuth => o.push(0x82),
+            E::NextProtocolNegotiation => o.push(0x83),
+            E::RenegotiationInfo(b) => cb(o, 0x84, b),
+            E::EncryptedServerName { ciphersuite, group, key_share, record_digest, encrypted_sni } => {
+                cu(o, 0x85, ciphersuite.0 as u64);
+                cu(o, 0x86, group.0 as u64);
+                cb(o, 0x87, key_share);
+                cb(o, 0x88, record_digest);
+                cb(o, 0x89, encrypted_sni);
+            }
+            E::Grease(t, b) => {
+                cu(o, 0x8a, *t as u64);
+                cb(o, 0x8b, b);
+            }
+            E::Unknown(t, b) => {
+                cu(o, 0x8c, t.0 as u64);
+                cb(o, 0x8d, b);
+            }
+        }
+    }
+}
+impl Canon for DTLSRecordHeader {
+    fn canon(&self, o: &mut Vec<u8>) {
+        cu(o, 0x90, self.content_type.0 as u64);
+        cu(o, 0x91, self.version.0 as u64);
+        cu(o, 0x92, self.epoch as u64);
+        cu(o, 0x93, self.sequence_number);
+        cu(o, 0x94, self.length as u64);
+    }
+}
+impl<'a> Canon for DTLSMessageHandshakeBody<'a> {
+    fn canon(&self, o: &mut Vec<u8>) {
+        use DTLSMessageHandshakeBody as B;
+        match self {
+            B::HelloRequest => o.push(0xa0),
+            B::ClientHello(c) => {
+                cu(o, 0xa1, c.version.0 as u64);
+                cb(o, 0xa2, c.random);
+                cob(o, 0xa3, &c.session_id);
+                cb(o, 0xa4, c.cookie);
+                cu(o, 0xa5, c.ciphers.len() as u64);
+                for x in &c.ciphers {
+                    cu(o, 0xa6, x.0 as u64)
+                }
+                cu(o, 0xa7, c.comp.len() as u64);
+                for x in &c.comp {
+                    cu(o, 0xa8, x.0 as u64)
+                }
+                cob(o, 0xa9, &c.ext);
+            }
+            B::HelloVerifyRequest(h) => {
+                cu(o, 0xaa, h.server_version.0 as u64);
+                cb(o, 0xab, h.cookie);
+            }
+            B::ServerHello(c) => {
+                o.push(0xac);
+                c.canon(o)
+            }
+            B::NewSessionTicket(t) => {
+                cu(o, 0xad, t.ticket_lifetime_hint as u64);
+                cb(o, 0xae, t.ticket);
+            }
+            B::HelloRetryRequest(c) => {
+                cu(o, 0xaf, c.version.0 as u64);
+                cu(o, 0xb0, c.cipher.0 as u64);
+                cob(o, 0xb1, &c.ext);
+            }
+            B::Certificate(c) => {
+                o.push(0xb2);
+                c.canon(o)
+            }
+            B::ServerKeyExchange(c) => cb(o, 0xb3, c.parameters),
+            B::CertificateRequest(c) => {
+                o.push(0xb4);
+                c.canon(o)
+            }
+            B::ServerDone(b) => cb(o, 0xb5, b),
+            B::CertificateVerify(b) => cb(o, 0xb6, b),
+            B::ClientKeyExchange(c) => {
+                o.push(0xb7);
+                c.canon(o)
+            }
+            B::Finished(b) => cb(o, 0xb8, b),
+            B::CertificateStatus(c) => {
+                o.push(0xb9);
+                c.canon(o)
+            }
+            B::NextProtocol(c) => {
+                o.push(0xba);
+                c.canon(o)
+            }
+            B::Fragment(b) => cb(o, 0xbb, b),
+        }
+    }
+}
+impl<'a> Canon for DTLSMessage<'a> {
+    fn canon(&self, o: &mut Vec<u8>) {
+        match self {
+            DTLSMessage::Handshake(h) => {
+                cu(o, 0xc0, h.msg_type.0 as u64);
+                cu(o, 0xc1, h.length as u64);
+                cu(o, 0xc2, h.message_seq as u64);
+                cu(o, 0xc3, h.fragment_offset as u64);
+                cu(o, 0xc4, h.fragment_length as u64);
+                h.body.canon(o);
+            }
+            DTLSMessage::ChangeCipherSpec => o.push(0xc5),
+            DTLSMessage::Alert(a) => {
+                cu(o, 0xc6, a.severity.0 as u64);
+                cu(o, 0xc7, a.code.0 as u64);
+            }
+            DTLSMessage::ApplicationData(a) => cb(o, 0xc8, a.blob),
+            DTLSMessage::Heartbeat(h) => {
+                cu(o, 0xc9, h.heartbeat_type.0 as u64);
+                cu(o, 0xca, h.payload_len as u64);
+                cb(o, 0xcb, h.payload);
+            }
+        }
+    }
+}
+impl<'a> Canon for DTLSPlaintext<'a> {
+    fn canon(&self, o: &mut Vec<u8>) {
+        self.header.canon(o);
+        self.messages.canon(o);
+    }
+}
+impl<'a> Canon for ServerDHParams<'a> {
+    fn canon(&self, o: &mut Vec<u8>) {
+        cb(o, 0xd0, self.dh_p);
+        cb(o, 0xd1, self.dh_g);
+        cb(o, 0xd2, self.dh_ys);
+    }
+}
+impl<'a> Canon for ECPoint<'a> {
+    fn canon(&self, o: &mut Vec<u8>) {
+        cb(o, 0xd3, self.point)
+    }
+}
+impl<'a> Canon for ECParameters<'a> {
+    fn canon(&self, o: &mut Vec<u8>) {
+        cu(o, 0xd4, self.curve_type.0 as u64);
+        match &self.params_content {
+            ECParametersContent::NamedGroup(g) => cu(o, 0xd5, g.0 as u64),
+            ECParametersContent::ExplicitPrime(c) => {
+                cb(o, 0xd6, c.prime_p);
+                cb(o, 0xd7, c.curve.a);
+                cb(o, 0xd8, c.curve.b);
+                cb(o, 0xd9, c.base.point);
+                cb(o, 0xda, c.order);
+                cb(o, 0xdb, c.cofactor);
+            }
+        }
+    }
+}
+impl<'a> Canon for ServerECDHParams<'a> {
+    fn canon(&self, o: &mut Vec<u8>) {
+        self.curve_params.canon(o);
+        cb(o, 0xdc, self.public.point);
+    }
+}
+impl<'a> Canon for DigitallySigned<'a> {
+    fn canon(&self, o: &mut Vec<u8>) {
+        match &self.alg {
+            None => o.push(0xdd),
+            Some(a) => {
+                cu(o, 0xde, a.hash.0 as u64);
+                cu(o, 0xdf, a.sign.0 as u64);
+            }
+        }
+        cb(o, 0xe1, self.data);
+    }
+}
+impl<'a> Canon for SignedCertificateTimestamp<'a> {
+    fn canon(&self, o: &mut Vec<u8>) {
+        cu(o, 0xe2, self.version.0 as u64);
+        cb(o, 0xe3, &self.id.key_id[..]);
+        cu(o, 0xe4, self.timestamp);
+        cb(o, 0xe5, self.extensions.0);
+        self.signature.canon(o);
+    }
+}
+impl Canon for Vec<u8> {
+    fn canon(&self, o: &mut Vec<u8>) {
+        cb(o, 0xe6, self)
+    }
+}
